@@ -1,4 +1,5 @@
 import os
+import logging
 
 from simulaqron.settings import simulaqron_settings
 from simulaqron.toolbox.manage_nodes import NetworksConfigConstructor
@@ -6,7 +7,14 @@ from simulaqron.toolbox.manage_nodes import NetworksConfigConstructor
 
 def check_config_files():
     if not os.path.exists(simulaqron_settings.network_config_file):
-        _create_default_network_config()
+        try:
+            _create_default_network_config()
+        except OSError as err:
+            # This runs whenever the package is imported. If the configured file cannot be created (for example
+            # because its directory does not exist) the import must still succeed: otherwise nothing, not even
+            # 'simulaqron set network-config-file' or 'simulaqron reset', can be used to correct the setting.
+            logging.warning("Could not create the network config file {}: {}"
+                            .format(simulaqron_settings.network_config_file, err))
 
 
 def _create_default_network_config():
